@@ -32,10 +32,13 @@ def mk_collection(edits, parent, order="asc"):
 class Hap:
     """one haplotype of the implementation: variant objects built once, used for many locations (as a user would)"""
 
-    def __init__(self, N, rot, edits, window, seqless=False):
-        self.N, self.rot, self.edits, self.window, self.seqless = N, rot, tuple(edits), window, seqless
+    def __init__(self, N, rot, edits, window, seqless=False, noid=False):
+        self.N, self.rot, self.edits, self.window, self.seqless, self.noid = N, rot, tuple(edits), window, seqless, noid
         self.ref = W.genome(N, rot)
         self.parent = None if seqless else mk_parent(self.ref, window)
+        if noid:
+            # a whole chromosome WITH sequence but without an identifier (seq_to_parent(reference))
+            self.parent = lib.chrom_parent(self.ref, name=None)
         self.coll = mk_collection(self.edits, self.parent)
         self.single = mk_variants(self.edits, self.parent)[0] if len(self.edits) == 1 else None
         self.nlc = W.n_len_changing(self.edits)
